@@ -96,6 +96,10 @@ type GAtom struct {
 	X   *Org
 	Y   *Org
 	R   *Resolver
+	// Expanded: the atom is a predicate-helper call or a table test whose
+	// implied conditions follow it in the list (rules that require an exact
+	// set of conditions judge those, not the call itself)
+	Expanded bool
 }
 
 func (g GAtom) String() string {
@@ -729,9 +733,11 @@ func guardAtoms(r *Resolver, ins ssa.Instruction) []GAtom {
 	var out []GAtom
 	for _, g := range GuardsOf(ins) {
 		a := atomsOf(g)
-		out = append(out, mkGAtom(r, a))
-		out = append(out, expandPredicate(r, a, 0)...)
-		out = append(out, expandTable(r, a)...)
+		ga := mkGAtom(r, a)
+		ex := append(expandPredicate(r, a, 0), expandTable(r, a)...)
+		ga.Expanded = len(ex) > 0
+		out = append(out, ga)
+		out = append(out, ex...)
 	}
 	return out
 }
